@@ -72,6 +72,10 @@ func c17CrossCases() []c17CrossCase {
 		// two appchains whose ids differ only in letter case, both directions
 		{"chain A's admin", fix.KA, c17CaseChain, fix.Svc1, fix.KC, c17SetupCaseChain},
 		{"the admin of the look-alike chain", fix.KC, fix.ChainA, fix.Svc1, fix.KA, c17SetupCaseChain},
+		// an account whose OWN application for the chain id was rejected / withdrawn before
+		// somebody else registered that id
+		{"the rejected earlier applicant for the id", fix.KOut, c17ReusedChain, fix.Svc1, fix.KC, c17SetupReused("reject")},
+		{"the earlier applicant for the id, who withdrew", fix.KOut, c17ReusedChain, fix.Svc1, fix.KC, c17SetupReused("withdraw")},
 	} {
 		o := o
 		foreign := []string{strings.ToLower(fix.Addr(o.victim).String()), strings.ToLower(o.chain)}
@@ -115,6 +119,26 @@ func c17SetupCaseChain(w *fix.World) {
 	w.Approve(fix.ProposalID(res.Receipts[0]))
 	res = w.Must(w.Block(w.RegisterServiceTx(fix.KC, c17CaseChain, fix.Svc1, "")))
 	w.Approve(fix.ProposalID(res.Receipts[0]))
+}
+
+// c17ReusedChain: a chain id first applied for by the outsider (application rejected or
+// withdrawn), then registered by another account.
+const c17ReusedChain = "chainReused"
+
+func c17SetupReused(how string) func(w *fix.World) {
+	return func(w *fix.World) {
+		res := w.Must(w.Block(w.RegisterAppchainTx(fix.KOut, c17ReusedChain, "0x00000000000000000000000000000000000000a2", nil, "ETH")))
+		id := fix.ProposalID(res.Receipts[0])
+		if how == "reject" {
+			w.Block(w.VoteTx(0, id, "reject"), w.VoteTx(1, id, "reject"), w.VoteTx(2, id, "reject"))
+		} else {
+			w.Must(w.Block(w.InvokeTx(fix.KOut, constant.GovernanceContractAddr, "WithdrawProposal", pb.String(id), pb.String("r"))))
+		}
+		res = w.Must(w.Block(w.RegisterAppchainTx(fix.KC, c17ReusedChain, "0x00000000000000000000000000000000000000a2", nil, "ETH")))
+		w.Approve(fix.ProposalID(res.Receipts[0]))
+		res = w.Must(w.Block(w.RegisterServiceTx(fix.KC, c17ReusedChain, fix.Svc1, "")))
+		w.Approve(fix.ProposalID(res.Receipts[0]))
+	}
 }
 
 func c17SetupSubChain(w *fix.World) {
@@ -165,7 +189,7 @@ func c17Cross(c *mc.Ctx) {
 			w.R.Close()
 		}
 	}
-	c.Set("rule_cross_party", "6 operations a party may perform on its own objects but carrying another party's identifiers, and 7 operations reserved to a chain's own admin (service register / update / logout, rule register, master-rule update, appchain update / logout) tried by the other chain's admin in both directions (must be refused) (another chain's admin or a governance admin in an appchain's admin list, registration naming an occupied account, a service registered under another chain), audit off/on, each followed by the caller's withdrawal of the proposal it opened: no EXISTING stored record whose key contains the other party's address or chain id may be altered or removed (new markers keyed by that address are not judged)")
+	c.Set("rule_cross_party", "6 operations a party may perform on its own objects but carrying another party's identifiers, and 7 operations reserved to a chain's own admin (service register / update / logout, rule register, master-rule update, appchain update / logout) tried by the other chain's admin in both directions, by the admin of a look-alike chain id, and by an account whose own earlier application for the chain id was rejected or withdrawn before another party registered it (must be refused) (another chain's admin or a governance admin in an appchain's admin list, registration naming an occupied account, a service registered under another chain), audit off/on, each followed by the caller's withdrawal of the proposal it opened: no EXISTING stored record whose key contains the other party's address or chain id may be altered or removed (new markers keyed by that address are not judged)")
 }
 
 func init() {
